@@ -1043,7 +1043,7 @@ package badger
 //@   assert[max-version-covers-entry] before call KeyWithTs : arg0 == kv.Key && arg1 == kv.Version && sw.maxVersion >= kv.Version
 
 //@ func (*StreamWriter).Flush
-//@   props C11
+//@   props C11 C26
 //@   light
 //@   assert[max-covers-current] before call newOracle : sw.maxVersion >= ret(readTs#1)
 //@   assert[next-from-max-version] before call incrementNextTs : arg0 == sw.db.orc && sw.db.orc.nextTxnTs == sw.maxVersion
@@ -1058,6 +1058,27 @@ package badger
 //@   loop 2 invariant[above-loaded] rangeindex >= 0 && rangeindex < len(list.Kv) && list.Kv[rangeindex].Version != ^uint64(0) ==> db.orc.nextTxnTs > list.Kv[rangeindex].Version
 //@   loop 2 invariant[largest-version-not-loaded] rangeindex >= 0 && rangeindex < len(list.Kv) ==> list.Kv[rangeindex].Version != ^uint64(0)
 //@   assert[mark-below-next] before call Done : arg0 == db.orc.txnMark && arg1 == db.orc.nextTxnTs - 1
+
+// sortedWriter (StreamWriter): keys must arrive in strictly increasing internal-key order; a
+// table is cut only between different user keys, so all versions of a key share a table; each
+// entry is added under its own key and value. A finished table is recorded in the MANIFEST,
+// with its own id, key id, level and compression, before the level sees it.
+//@ func (*sortedWriter).Add
+//@   props C26 C14
+//@   light
+//@   assert[order-checked-against-last-key] before call CompareKeys : arg0 == key && arg1 == w.lastKey
+//@   assert[out-of-order-rejected] before call SameKey : len(w.lastKey) == 0 || ret(CompareKeys#1) > 0
+//@   assert[cut-only-between-keys] before call send : !ret(SameKey#1)
+//@   assert[last-key-remembered] before call SafeCopy : arg0 == w.lastKey && arg1 == key
+//@   assert[entry-as-given] before call Add : arg0 == w.builder && arg1 == key && arg2 == vs
+
+//@ func (*sortedWriter).createTable
+//@   props C26 C08 C17
+//@   light
+//@   assert[manifest-before-level] before call addTable : called(addChanges#1) && ret(addChanges#1) == nil && arg1 == tbl
+//@   assert[change-describes-table] before call addChanges : change.Id == ret(ID#1) && change.KeyId == ret(KeyID#1) && change.Op == pb.ManifestChange_CREATE && change.Level == uint32(lhandler.level) && change.Compression == uint32(ret(CompressionType#1))
+//@   assert[into-own-level] before call addTable : arg0 == lhandler
+//@   assert[own-level-handler] before call ID : lhandler == w.db.lc.levels[w.level]
 
 // ---- call-order rules that recovery relies on (C08, C10): ordering obligations only ----
 // Neither property is decided (a crash point is a cut through the effects of several
